@@ -23,7 +23,9 @@ import (
 	"sort"
 	"strings"
 
+	"github.com/vechain/thor/v2/kv"
 	"github.com/vechain/thor/v2/muxdb"
+	"github.com/vechain/thor/v2/muxdb/engine"
 	"github.com/vechain/thor/v2/thor"
 	"github.com/vechain/thor/v2/trie"
 
@@ -51,6 +53,7 @@ type config struct {
 	HF, DF      uint32
 	CacheMB     int
 	TTL         uint16
+	Disk        bool // the REAL muxdb.Open on a scratch directory (persisted layout config) instead of NewWithEngine
 }
 
 func (c config) String() string {
@@ -66,7 +69,11 @@ func (c config) String() string {
 		}
 		return fmt.Sprint(x)
 	}
-	return fmt.Sprintf("hf%s-df%s-cache%d-ttl%d-skip[%s]", f(c.HF), f(c.DF), c.CacheMB, c.TTL, strings.Join(sk, ","))
+	d := ""
+	if c.Disk {
+		d = "disk-"
+	}
+	return fmt.Sprintf("%shf%s-df%s-cache%d-ttl%d-skip[%s]", d, f(c.HF), f(c.DF), c.CacheMB, c.TTL, strings.Join(sk, ","))
 }
 
 type runStat struct {
@@ -86,7 +93,12 @@ type runStat struct {
 
 type world struct {
 	c      config
-	eng    *kvrec.Engine
+	eng    *kvrec.Engine // recording engine (nil in disk mode)
+	kve    engine.Engine // the engine under the open MuxDB (key spaces are read back from it)
+	dir    string        // disk mode: database directory
+	reqRng *rand.Rand    // disk mode: which Options a re-open asks for
+	reqHF  uint32        // partition factors passed to the last Open
+	reqDF  uint32
 	db     *muxdb.MuxDB
 	keys   [][]byte // universe, as key bytes
 	nibs   [][]int  // universe, as nibble lists
@@ -205,10 +217,18 @@ func decodeVal(val, meta []byte) int {
 // ---- world ------------------------------------------------------------------------------------------------------
 
 func newWorld(c config, mode string, seed int64) *world {
-	w := &world{c: c, eng: kvrec.New(), par: map[ver]ver{}, anc: map[ver]map[ver]bool{}, rootv: map[ver]map[string]rootRef{},
+	w := &world{c: c, par: map[ver]ver{}, anc: map[ver]map[ver]bool{}, rootv: map[ver]map[string]rootRef{},
 		cont: map[ver]map[string]map[string]int{}, rcache: map[string]ver{}, nextID: 2}
 	w.keys, w.nibs = universe(c.Nib, c.KeyLen)
-	w.open()
+	w.reqHF, w.reqDF = c.HF, c.DF
+	if c.Disk {
+		diskCount++
+		w.dir = filepath.Join(diskRoot, fmt.Sprintf("db-%d", diskCount))
+		w.reqRng = rand.New(rand.NewSource(seed ^ 0x5eed))
+	} else {
+		w.eng = kvrec.New()
+	}
+	must(w.open())
 	w.vers = []ver{genesis}
 	w.anc[genesis] = map[ver]bool{genesis: true}
 	w.rootv[genesis] = map[string]rootRef{}
@@ -246,13 +266,56 @@ func strs(s []string) []string {
 	return s
 }
 
-func (w *world) open() {
-	w.db = muxdb.NewWithEngine(w.eng, muxdb.VerifOptions{CacheSizeMB: w.c.CacheMB, CachedNodeTTL: w.c.TTL,
-		HistPartitionFactor: w.c.HF, DedupedPtnFactor: w.c.DF})
+var (
+	diskRoot  string // scratch directory for disk-mode databases (under -out, removed after each run)
+	diskCount int
+)
+
+// open (re-)opens the MuxDB. Disk mode: the real muxdb.Open with the partition factors w.reqHF / w.reqDF - the layout
+// the database was created with is persisted in it and must win over whatever a later Open asks for.
+func (w *world) open() error {
+	if !w.c.Disk {
+		w.db = muxdb.NewWithEngine(w.eng, muxdb.VerifOptions{CacheSizeMB: w.c.CacheMB, CachedNodeTTL: w.c.TTL,
+			HistPartitionFactor: w.c.HF, DedupedPtnFactor: w.c.DF})
+		w.kve = w.eng
+		return nil
+	}
+	if w.db != nil {
+		if err := w.db.Close(); err != nil {
+			return err
+		}
+		w.db = nil
+	}
+	db, err := muxdb.Open(w.dir, &muxdb.Options{TrieNodeCacheSizeMB: w.c.CacheMB, TrieCachedNodeTTL: w.c.TTL,
+		TrieHistPartitionFactor: w.reqHF, TrieDedupedPartitionFactor: w.reqDF, TrieWillCleanHistory: true,
+		OpenFilesCacheCapacity: 16, ReadCacheMB: 1, WriteBufferMB: 1})
+	if err != nil {
+		return err
+	}
+	w.db = db
+	w.kve = db.VerifEngine()
+	return nil
 }
 
+// coldDB: a cache-less reader over the same engine that composes keys with the layout of creation
 func (w *world) coldDB() *muxdb.MuxDB {
-	return muxdb.NewWithEngine(w.eng, muxdb.VerifOptions{HistPartitionFactor: w.c.HF, DedupedPtnFactor: w.c.DF})
+	return muxdb.NewWithEngine(w.kve, muxdb.VerifOptions{HistPartitionFactor: w.c.HF, DedupedPtnFactor: w.c.DF})
+}
+
+func (w *world) note(s string) {
+	if w.eng != nil {
+		w.eng.SetNote(s)
+	}
+}
+
+func listKeys(e engine.Engine, space byte) [][]byte {
+	it := e.Iterate(kv.Range{Start: []byte{space}, Limit: []byte{space + 1}})
+	defer it.Release()
+	var out [][]byte
+	for it.Next() {
+		out = append(out, append([]byte(nil), it.Key()...))
+	}
+	return out
 }
 
 func (w *world) emit(e trace.Ev) { w.evs = append(w.evs, e) }
@@ -404,7 +467,7 @@ func (w *world) block(p ver, chs []change) ver {
 				hashok = false
 			}
 		}
-		w.eng.SetNote(fmt.Sprintf("commit %s@%d.%d", n, b.Maj, b.Min))
+		w.note(fmt.Sprintf("commit %s@%d.%d", n, b.Maj, b.Min))
 		w.real("commit", t.Commit(trie.Version{Major: b.Maj, Minor: b.Min}, w.c.Skip[n]))
 		if len(cur[n]) == 0 {
 			w.rootv[b][n] = rootRef{}
@@ -438,13 +501,9 @@ func (w *world) retained(b ver) bool {
 	return b.Maj >= lim && (w.ckroot == nil || w.anc[b][*w.ckroot])
 }
 
-func (w *world) aligned(target uint32) bool {
-	return w.c.HF == math.MaxUint32 || target%w.c.HF == 0
-}
-
 // canPrune mirrors NodeStore!CanPrune (what thor guarantees before a prune round)
 func (w *world) canPrune(t ver, target uint32) bool {
-	if w.pend != 0 || target <= w.base || t.Maj != target-1 || !w.retained(t) || !w.aligned(target) {
+	if w.pend != 0 || target <= w.base || t.Maj != target-1 || !w.retained(t) {
 		return false
 	}
 	above := false
@@ -469,7 +528,7 @@ func (w *world) canPrune(t ver, target uint32) bool {
 
 // checkpoint: what pruner.checkpointTries does, at the muxdb.Trie level
 func (w *world) checkpoint(t ver, target uint32) {
-	w.eng.SetNote(fmt.Sprintf("checkpoint %d.%d base %d", t.Maj, t.Min, w.base))
+	w.note(fmt.Sprintf("checkpoint %d.%d base %d", t.Maj, t.Min, w.base))
 	for _, n := range w.c.Names {
 		r := w.rootv[t][n]
 		if !r.ok || (!w.c.Main[n] && r.ver.Maj < w.base) {
@@ -488,17 +547,33 @@ func (w *world) checkpoint(t ver, target uint32) {
 }
 
 func (w *world) deleteHist() {
-	w.eng.SetNote(fmt.Sprintf("delete [%d,%d)", w.base, w.pend))
+	w.note(fmt.Sprintf("delete [%d,%d)", w.base, w.pend))
 	w.real("delete-history", w.db.DeleteTrieHistoryNodes(context.Background(), w.base, w.pend))
 	w.base, w.pend = w.pend, 0
 	w.emit(trace.Ev{"e": "DeleteHist"})
 	w.st.Prunes++
 }
 
+var reqFactors = []uint32{1, 2, 3, 4, 256, math.MaxUint32}
+
 func (w *world) reopen() {
-	w.open()
+	if w.c.Disk {
+		// another process start with other flags: any partition factors may be asked for
+		w.reqHF = reqFactors[w.reqRng.Intn(len(reqFactors))]
+		w.reqDF = reqFactors[w.reqRng.Intn(len(reqFactors))]
+		if w.reqRng.Intn(4) == 0 {
+			w.reqHF, w.reqDF = w.c.HF, w.c.DF
+		}
+	}
+	w.real("reopen", w.open())
 	w.rcache = map[string]ver{}
-	w.emit(trace.Ev{"e": "Reopen"})
+	fac := func(x uint32) int {
+		if x == math.MaxUint32 {
+			return bigFactor
+		}
+		return int(x)
+	}
+	w.emit(trace.Ev{"e": "Reopen", "req": map[string]any{"hf": fac(w.reqHF), "df": fac(w.reqDF)}})
 	w.st.Reopens++
 }
 
@@ -641,7 +716,7 @@ func decodePath(k []byte) (path []int, rest []byte, ok bool) {
 
 func (w *world) keySpaces() (hist [][]any, dedup [][]any, err error) {
 	hist, dedup = [][]any{}, [][]any{}
-	for _, k := range w.eng.Keys([]byte{kvrec.SpaceHist}) {
+	for _, k := range listKeys(w.kve, kvrec.SpaceHist) {
 		r := k[1:]
 		ptn := uint32(0)
 		if w.c.HF != math.MaxUint32 {
@@ -681,7 +756,7 @@ func (w *world) keySpaces() (hist [][]any, dedup [][]any, err error) {
 		}
 		hist = append(hist, []any{n, path, []int{int(maj), int(minor)}})
 	}
-	for _, k := range w.eng.Keys([]byte{kvrec.SpaceDedup}) {
+	for _, k := range listKeys(w.kve, kvrec.SpaceDedup) {
 		r := k[1:]
 		ptn := uint32(0)
 		if w.c.DF != math.MaxUint32 {
@@ -727,6 +802,12 @@ func (w *world) prune(t ver, target uint32, observeInFlight bool) {
 }
 
 func (w *world) finish() []trace.Ev {
+	if w.c.Disk {
+		if w.db != nil {
+			w.db.Close()
+		}
+		os.RemoveAll(w.dir)
+	}
 	w.st.Events = len(w.evs)
 	return w.evs
 }
@@ -788,6 +869,25 @@ func matrix(names []string, main map[string]bool) []config {
 	return out
 }
 
+// diskMatrix: option sets for histories over the real muxdb.Open (small and production partition factors)
+func diskMatrix(names []string, main map[string]bool) []config {
+	var out []config
+	for _, ttl := range []uint16{32, 0, 1} {
+		for _, hf := range []uint32{2, 3, 4, 256} {
+			for _, df := range []uint32{math.MaxUint32, 1, 2, 3} {
+				for _, sk := range [][]string{{"i"}, {"i", "a"}, {}} {
+					skip := map[string]bool{}
+					for _, s := range sk {
+						skip[s] = true
+					}
+					out = append(out, config{Names: names, Main: main, Skip: skip, HF: hf, DF: df, CacheMB: 1, TTL: ttl, Disk: true})
+				}
+			}
+		}
+	}
+	return out
+}
+
 // ---- seeded histories -------------------------------------------------------------------------------------------
 
 func runSeeded(c config, seed int64, steps int) *world {
@@ -837,6 +937,10 @@ func runSeededSteps(w *world, c config, rng *rand.Rand, steps int, randChanges f
 		r := rng.Intn(100)
 		tip := w.tip()
 		switch {
+		case w.c.Disk && r >= 78:
+			// process restarts are the point of the disk mode
+			w.reopen()
+			w.observe()
 		case r < 55:
 			w.block(tip, randChanges(tip, rng.Intn(5) == 0))
 			w.observe()
@@ -1022,6 +1126,7 @@ func main() {
 	flag.BoolVar(&tiny, "tiny", false, "one-byte values (full nodes without hash are embedded); observables only")
 	cfgsel := flag.String("cfgs", "", "exhaustive/inflight: comma list of matrix indices (default: a fixed few)")
 	flag.Parse()
+	diskRoot = filepath.Join(*out, "dbs")
 	if *keylen%2 != 0 {
 		must(fmt.Errorf("keylen must be even"))
 	}
@@ -1065,6 +1170,16 @@ func main() {
 		for i := 0; i < *runs; i++ {
 			// walk the option matrix with a stride (36+12+4+1, coprime to its size) that changes every dimension at every step
 			c := mx[(off+i*53)%len(mx)]
+			c.Nib, c.KeyLen = *nib, *keylen
+			add(runSeeded(c, *seed*1000003+int64(i), *steps))
+		}
+	case "disk":
+		// the same seeded histories over the real muxdb.Open on a scratch directory, re-opened with other Options
+		dm := diskMatrix(names, main)
+		rng := rand.New(rand.NewSource(*seed))
+		off := rng.Intn(len(dm))
+		for i := 0; i < *runs; i++ {
+			c := dm[(off+i*65)%len(dm)] // 65 = 48+12+3+2: every dimension moves at every step, coprime to 144
 			c.Nib, c.KeyLen = *nib, *keylen
 			add(runSeeded(c, *seed*1000003+int64(i), *steps))
 		}
